@@ -2246,6 +2246,19 @@ class Recipe:
         if self.locked:
             raise RuntimeError("Recipe has already been baked.")
 
+        # Every declared object must be used by some step. This is checked before anything is executed: a bake that
+        # is refused for this reason must leave the recipe as it was, so that it can be baked after the missing
+        # step has been added.
+        used_names = set()
+        for step in self.steps:
+            for elem in step.frm + step.to + [operand for operand in step.operands if isinstance(operand, Container)]:
+                if isinstance(elem, PlateSlicer):
+                    used_names.add(elem.plate.name)
+                elif isinstance(elem, (Container, Plate)):
+                    used_names.add(elem.name)
+        if any(name not in used_names for name in self.results):
+            raise ValueError("Something declared as used wasn't used.")
+
         # Implicitly end the current stage
         if self.current_stage != 'all':
             self.end_stage(self.current_stage)
